@@ -80,3 +80,33 @@ def nstep(payload):
         if msg:
             return {"status": "fail", "cases": cases, "detail": msg, "input": dict(n=n, E=E, dones=dones, rewards=rewards)}
     return {"status": "pass", "cases": cases}
+
+
+def clear(payload):
+    """MultiStepReplayBuffer.clear(): nothing added before the clear may show up in a transition stored afterwards."""
+    import torch
+    from tensordict import TensorDict
+    from agilerl.components.replay_buffer import MultiStepReplayBuffer
+    cases = 0
+
+    def tr(tag):
+        return TensorDict({"obs": torch.full((1, 2), float(tag)), "action": torch.full((1, 1), float(tag)), "reward": torch.full((1, 1), float(tag)),
+                           "next_obs": torch.full((1, 2), tag + 0.5), "done": torch.zeros((1, 1))}, batch_size=[1])
+    for n in (2, 3, 4):
+        for before in range(1, n + 2):
+            buf = MultiStepReplayBuffer(max_size=16, n_step=n, gamma=0.5)
+            for t in range(1, before + 1):
+                buf.add(tr(t))
+            buf.clear()
+            cases += 1
+            for k in range(1, n + 1):
+                buf.add(tr(100 + k))
+                want = 1 if k == n else 0
+                if len(buf) != want:
+                    return {"status": "fail", "cases": cases, "detail": f"n_step={n}: {before} adds, clear(), then {k} add(s): len {len(buf)} instead of {want} "
+                            f"(the window kept {min(before, n)} transition(s) from before the clear)", "input": {"n_step": n, "before": before, "after": k}}
+            row = buf.sample(1)
+            if float(row["obs"].reshape(-1)[0]) != 101.0:
+                return {"status": "fail", "cases": cases, "detail": f"n_step={n}: stored transition starts from obs tagged {float(row['obs'].reshape(-1)[0])}, added before clear()",
+                        "input": {"n_step": n, "before": before}}
+    return {"status": "pass", "cases": cases}
